@@ -213,7 +213,7 @@ def check_props_file(ctx, rel):
     ok = (rc == 0 and not bad)
     if ok: ctx.cov['discharged'] += len(thms)
     closed = len(re.findall(r'Closed under the global context', out))
-    axioms = sorted(set(re.findall(r'^([A-Za-z_][\w\.]*)\s*:', out, re.M)))
+    axioms = sorted(set(re.findall(r'^([A-Za-z_][\w\.]*)\s*:', out, re.M)) - {'Axioms'})
     ctx.cov['print_assumptions'] = {'closed_under_global_context': closed, 'axioms_listed': axioms}
     ctx.cov['theorems'] = thms
     return ok, out
